@@ -1473,8 +1473,18 @@ impl<R: Read> Base64Decoder<R> {
             self.buffer_size = 0;
         }
         while self.buffer_size + 3 <= self.buffer.len() {
+            // reader is allowed to return less than requested, accumulate
+            // until we have a full group or reached the end of the input
             let mut input = [0u8; 4];
-            let size = self.read.read(&mut input)?;
+            let mut size = 0;
+            while size < input.len() {
+                match self.read.read(&mut input[size..]) {
+                    Ok(0) => break,
+                    Ok(count) => size += count,
+                    Err(error) if error.kind() == std::io::ErrorKind::Interrupted => continue,
+                    Err(error) => return Err(error),
+                }
+            }
             if size == 0 {
                 break;
             } else if size != 4 {
